@@ -71,6 +71,27 @@ type IntegWorld struct {
 	NFaults     int                  `json:"nfaults,omitempty"`
 	FinishTwice bool                 `json:"finish_twice,omitempty"`
 	Sequential  bool                 `json:"sequential,omitempty"` // drivers run one after another
+	// ViaConfig: tasks, pipelines are written to a configuration file and built by the real
+	// config loader instead of through the Go API (C08, CLI).
+	ViaConfig   bool         `json:"via_config,omitempty"`
+	ExtraGraphs []*GraphSpec `json:"extra_graphs,omitempty"`
+}
+
+func (w *IntegWorld) AllGraphs() []*GraphSpec {
+	var out []*GraphSpec
+	if w.Graph != nil {
+		out = append(out, w.Graph)
+	}
+	return append(out, w.ExtraGraphs...)
+}
+
+func (w *IntegWorld) GraphByName(n string) *GraphSpec {
+	for _, g := range w.AllGraphs() {
+		if g.Name == n {
+			return g
+		}
+	}
+	return nil
 }
 
 func (w *IntegWorld) Task(name string) *TaskSpec {
@@ -132,8 +153,8 @@ func (w *IntegWorld) Summary() string {
 	for _, c := range w.Contexts {
 		out += fmt.Sprintf(" ctx:%s[up%d down%d b%d a%d]", c.Name, c.NUp, c.NDown, c.NBefore, c.NAfter)
 	}
-	if w.Graph != nil {
-		out += " graph:" + w.Graph.String()
+	for _, g := range w.AllGraphs() {
+		out += " graph:" + g.String()
 	}
 	var ds []string
 	for _, d := range w.Drivers {
